@@ -173,4 +173,43 @@ Definition eri_block (s1 s2 s3 s4 : shell F) : list (list (list (list (list (lis
                  (fst (fst c1)) (snd (fst c1)) (snd c1)
           * nth i1 f1 0 * nth i2 f2 0 * nth i3 f3 0 * nth i4 f4 0)))))))).
 
+(* ---- electron_repulsion.py after the orientation repair (construct_array_contraction) ----
+   order = min(_ORIENTATIONS, key = _noise_amplification)    a FLOATING-POINT estimate: modelled as an oracle
+   cont_one..four = (conts[i] for i in order)                 the recursions run for the permuted quartet
+   integrals = transpose(.., (4,0,5,1,6,2,7,3))               [M1'][L1'][M2'][L2'][M3'][L3'][M4'][L4'] of the permuted quartet
+   positions = [order.index(i) for i in range(4)]
+   return transpose(integrals, [axis for k in positions for axis in (2k, 2k+1)])
+   i.e. result[m1,i1,..,m4,i4] = block(conts[order[0]],..,conts[order[3]]) [ (m,i)_{order[0]}, .., (m,i)_{order[3]} ].
+   The eight constructors are _ORIENTATIONS in the order of the source (command 22 of the runner: 0..7). *)
+Inductive orient := O_abcd | O_bacd | O_abdc | O_badc | O_cdab | O_dcab | O_cdba | O_dcba.
+
+(* conts[order[k]], k = 0..3, for any four things *)
+Definition opick1 {A : Type} (o : orient) (x1 x2 x3 x4 : A) : A :=
+  match o with O_abcd | O_abdc => x1 | O_bacd | O_badc => x2 | O_cdab | O_cdba => x3 | O_dcab | O_dcba => x4 end.
+Definition opick2 {A : Type} (o : orient) (x1 x2 x3 x4 : A) : A :=
+  match o with O_abcd | O_abdc => x2 | O_bacd | O_badc => x1 | O_cdab | O_cdba => x4 | O_dcab | O_dcba => x3 end.
+Definition opick3 {A : Type} (o : orient) (x1 x2 x3 x4 : A) : A :=
+  match o with O_abcd | O_bacd => x3 | O_abdc | O_badc => x4 | O_cdab | O_dcab => x1 | O_cdba | O_dcba => x2 end.
+Definition opick4 {A : Type} (o : orient) (x1 x2 x3 x4 : A) : A :=
+  match o with O_abcd | O_bacd => x4 | O_abdc | O_badc => x3 | O_cdab | O_dcab => x2 | O_cdba | O_dcba => x1 end.
+
+Definition block8 := list (list (list (list (list (list (list (list F))))))).
+Definition get8 (b : block8) (m1 i1 m2 i2 m3 i3 m4 i4 : nat) : F :=
+  nth i4 (nth m4 (nth i3 (nth m3 (nth i2 (nth m2 (nth i1 (nth m1 b []) []) []) []) []) []) []) 0.
+
+(* eri_block of the permuted shells with the 8 axes permuted back to [M1][L1][M2][L2][M3][L3][M4][L4] *)
+Definition eri_block_oriented (o : orient) (s1 s2 s3 s4 : shell F) : block8 :=
+  let B := eri_block (opick1 o s1 s2 s3 s4) (opick2 o s1 s2 s3 s4) (opick3 o s1 s2 s3 s4) (opick4 o s1 s2 s3 s4) in
+  mk (nseg s1) (fun m1 => mk (length (comps_of s1)) (fun i1 =>
+    mk (nseg s2) (fun m2 => mk (length (comps_of s2)) (fun i2 =>
+      mk (nseg s3) (fun m3 => mk (length (comps_of s3)) (fun i3 =>
+        mk (nseg s4) (fun m4 => mk (length (comps_of s4)) (fun i4 =>
+          get8 B (opick1 o m1 m2 m3 m4) (opick1 o i1 i2 i3 i4) (opick2 o m1 m2 m3 m4) (opick2 o i1 i2 i3 i4)
+                 (opick3 o m1 m2 m3 m4) (opick3 o i1 i2 i3 i4) (opick4 o m1 m2 m3 m4) (opick4 o i1 i2 i3 i4))))))))).
+
+(* the implementation: the orientation is whatever the conditioning estimate picks *)
+Definition eri_block_impl (choose : shell F -> shell F -> shell F -> shell F -> orient)
+           (s1 s2 s3 s4 : shell F) : block8 :=
+  eri_block_oriented (choose s1 s2 s3 s4) s1 s2 s3 s4.
+
 End TwoElec.
